@@ -79,6 +79,7 @@ def base_tree(fs, cfg, final_ws):
     fs.add_dir(f"{base}/in/build")
     fs.add_link(f"{base}/wsl", f"{base}/in/build")          # the workspace may be named through a link into an input
     fs.add_file("/outside/o.py", "O")
+    final_ws = fs._real(final_ws)          # the option may name the workspace through a link (wsl): build the old workspace where it really is
     if cfg["stale"] == 2:
         fs.add_file("/outside/keep/k.txt", "K")
         fs.add_file("/outside/mirror/m.py", "M")
@@ -122,6 +123,8 @@ def run_config(cfg, fuel=600):
     if outcome.startswith("unbounded"):
         return f"copies an unbounded amount of data ({outcome}; the inputs hold {n_inputs} files and directories)"
     for op, p in fs.log:
+        if op == "mkdir" and under(ws_real, p):
+            continue                  # a missing parent directory of the workspace has to be created
         if not under(p, ws_real):
             return f"{op} of {p} outside the workspace {ws_real}"
         if op == "delete" and not cfg["force"]:
@@ -134,7 +137,7 @@ def run_config(cfg, fuel=600):
         if fs.nodes.get(k) != v:
             return f"input/outside path {k} changed: {v} -> {fs.nodes.get(k)}"
     for k in fs.nodes:
-        if k not in before and not under(k, ws_real):
+        if k not in before and not under(k, ws_real) and not (under(ws_real, k) and fs.nodes[k][0] == "d"):
             return f"{k} created outside the workspace {ws_real}"
     if len(fs.log) > 12 * (n_inputs + 12):
         return f"{len(fs.log)} filesystem effects for {n_inputs} input paths: copying is not bounded by the inputs"
